@@ -347,25 +347,220 @@ func c07TrimCode(s *ast.SliceExpr) int {
 	return -1
 }
 
-// findTrim finds `if len(q.acked) > MaxCachedChunks { q.acked = q.acked[..] }` below n.
-func c07FindTrim(n ast.Node) (code int, found int) {
+// findTrim finds `if len(q.acked) > MaxCachedChunks { q.acked = q.acked[..] }` below the nodes ns. The statement of the branch may
+// also be a call `q.helper()` of an unexported method (resolve != nil) whose whole body is that assignment.
+func c07FindTrim(resolve func(ast.Expr) *ast.FuncDecl, ns ...ast.Node) (code int, found int) {
 	code = -1
-	ast.Inspect(n, func(x ast.Node) bool {
-		is, ok := x.(*ast.IfStmt)
-		if !ok || c07Sel(is.Cond) != "len(q.acked)>MaxCachedChunks" {
-			return true
+	for _, n := range ns {
+		if n == nil {
+			continue
 		}
-		if len(is.Body.List) == 1 && is.Else == nil {
-			if as, ok := is.Body.List[0].(*ast.AssignStmt); ok && len(as.Lhs) == 1 && len(as.Rhs) == 1 && c07Sel(as.Lhs[0]) == "q.acked" {
-				if se, ok := as.Rhs[0].(*ast.SliceExpr); ok {
-					code = c07TrimCode(se)
-					found++
+		ast.Inspect(n, func(x ast.Node) bool {
+			is, ok := x.(*ast.IfStmt)
+			if !ok || c07Sel(is.Cond) != "len(q.acked)>MaxCachedChunks" {
+				return true
+			}
+			if len(is.Body.List) == 1 && is.Else == nil {
+				st := is.Body.List[0]
+				if es, ok := st.(*ast.ExprStmt); ok && resolve != nil {
+					if ce, ok := es.X.(*ast.CallExpr); ok && len(ce.Args) == 0 {
+						if h := resolve(ce.Fun); h != nil && len(h.Body.List) == 1 {
+							st = h.Body.List[0]
+						}
+					}
+				}
+				if as, ok := st.(*ast.AssignStmt); ok && len(as.Lhs) == 1 && len(as.Rhs) == 1 && c07Sel(as.Lhs[0]) == "q.acked" {
+					if se, ok := as.Rhs[0].(*ast.SliceExpr); ok {
+						code = c07TrimCode(se)
+						found++
+					}
 				}
 			}
-		}
-		return true
-	})
+			return true
+		})
+	}
 	return
+}
+
+// c07MethodResolver resolves a call `q.m` (q the receiver of the method being read) to the declaration of the unexported method m of
+// the same type in the same file, provided that method names its receiver `q` too (the facts are stated over `q.…` expressions).
+func c07MethodResolver(f *ast.File, recvType string) func(ast.Expr) *ast.FuncDecl {
+	return func(fun ast.Expr) *ast.FuncDecl {
+		se, ok := fun.(*ast.SelectorExpr)
+		if !ok || c07Sel(se.X) != "q" || ast.IsExported(se.Sel.Name) {
+			return nil
+		}
+		h := findFunc(f, recvType, se.Sel.Name)
+		if h == nil || h.Body == nil || h.Recv == nil || len(h.Recv.List) != 1 || len(h.Recv.List[0].Names) != 1 || h.Recv.List[0].Names[0].Name != "q" {
+			return nil
+		}
+		return h
+	}
+}
+
+// c07Reach returns the statements together with the bodies of the unexported methods of the same receiver they call, directly or
+// through another such method (two levels): a fact about "this path does X" also holds when X happens in a helper the path calls.
+func c07Reach(resolve func(ast.Expr) *ast.FuncDecl, stmts []ast.Stmt) []ast.Node {
+	var res []ast.Node
+	seen := map[*ast.FuncDecl]bool{}
+	var add func(n ast.Node, depth int)
+	add = func(n ast.Node, depth int) {
+		res = append(res, n)
+		if depth == 0 {
+			return
+		}
+		ast.Inspect(n, func(x ast.Node) bool {
+			if ce, ok := x.(*ast.CallExpr); ok {
+				if h := resolve(ce.Fun); h != nil && !seen[h] {
+					seen[h] = true
+					add(h.Body, depth-1)
+				}
+			}
+			return true
+		})
+	}
+	for _, st := range stmts {
+		add(st, 2)
+	}
+	return res
+}
+
+// c07AppendPaths normalises InQueue.Append to guarded paths: the statements that run before the method distinguishes the expected
+// packet (`val.SeqNo == q.NextSeqNo`) from any other, the statements that run from there when it is the expected one, and the
+// statements that run when it is not.  Accepted alike:  `if a == b {X} else {Y}; R`,  `if a != b {Y} else {X}; R`,  the early-return
+// forms `if a != b {Y; return}; X…` / `if a == b {X; return}; Y…`,  and `switch { case a == b: X; default: Y }; R`
+// (a, b = val.SeqNo, q.NextSeqNo in either order).  R is part of a path unless the branch ends in a return / panic.
+func c07AppendPaths(fd *ast.FuncDecl) (before, inorder, other []ast.Stmt, why string) {
+	// +1: the expression is true exactly for the expected packet, -1: exactly for the others, 0: something else
+	polarity := func(e ast.Expr) int {
+		sign := 1
+		for {
+			switch v := e.(type) {
+			case *ast.ParenExpr:
+				e = v.X
+				continue
+			case *ast.UnaryExpr:
+				if v.Op == token.NOT {
+					sign, e = -sign, v.X
+					continue
+				}
+			}
+			break
+		}
+		be, ok := e.(*ast.BinaryExpr)
+		if !ok || (be.Op != token.EQL && be.Op != token.NEQ) {
+			return 0
+		}
+		x, y := c07Sel(be.X), c07Sel(be.Y)
+		if !(x == "val.SeqNo" && y == "q.NextSeqNo") && !(x == "q.NextSeqNo" && y == "val.SeqNo") {
+			return 0
+		}
+		if be.Op == token.NEQ {
+			sign = -sign
+		}
+		return sign
+	}
+	ends := func(l []ast.Stmt) bool {
+		if len(l) == 0 {
+			return false
+		}
+		switch v := l[len(l)-1].(type) {
+		case *ast.ReturnStmt:
+			return true
+		case *ast.ExprStmt:
+			if ce, ok := v.X.(*ast.CallExpr); ok && c07Sel(ce.Fun) == "panic" {
+				return true
+			}
+		}
+		return false
+	}
+	list := fd.Body.List
+	for i, st := range list {
+		var yes, no []ast.Stmt // when the condition found holds / does not hold
+		pol := 0
+		switch v := st.(type) {
+		case *ast.IfStmt:
+			if pol = polarity(v.Cond); pol == 0 {
+				continue
+			}
+			if v.Init != nil {
+				return nil, nil, nil, "the `val.SeqNo == q.NextSeqNo` test has an init statement"
+			}
+			yes = v.Body.List
+			switch e := v.Else.(type) {
+			case *ast.BlockStmt:
+				no = e.List
+			case *ast.IfStmt:
+				no = []ast.Stmt{e}
+			}
+		case *ast.SwitchStmt:
+			if v.Init != nil || v.Tag != nil || len(v.Body.List) == 0 {
+				continue
+			}
+			first, _ := v.Body.List[0].(*ast.CaseClause)
+			if first == nil || len(first.List) != 1 {
+				continue
+			}
+			if pol = polarity(first.List[0]); pol == 0 {
+				continue
+			}
+			yes = first.Body
+			switch len(v.Body.List) {
+			case 1:
+			case 2:
+				second := v.Body.List[1].(*ast.CaseClause)
+				if second.List != nil {
+					return nil, nil, nil, "the switch on `val.SeqNo == q.NextSeqNo` has a second conditional case"
+				}
+				no = second.Body
+			default:
+				return nil, nil, nil, "the switch on `val.SeqNo == q.NextSeqNo` has more than two cases"
+			}
+			for _, l := range [][]ast.Stmt{yes, no} {
+				bad := false
+				for _, s := range l {
+					// a break that refers to this switch (not to a loop / select / switch nested in the case) leaves it early
+					var walk func(n ast.Node, nested bool)
+					walk = func(n ast.Node, nested bool) {
+						ast.Inspect(n, func(x ast.Node) bool {
+							switch b := x.(type) {
+							case *ast.FuncLit:
+								return false
+							case *ast.ForStmt, *ast.RangeStmt, *ast.SelectStmt, *ast.SwitchStmt, *ast.TypeSwitchStmt:
+								if x != n {
+									walk(x, true)
+									return false
+								}
+							case *ast.BranchStmt:
+								if b.Tok == token.FALLTHROUGH && !nested || b.Tok == token.BREAK && (b.Label != nil || !nested) || b.Tok == token.GOTO {
+									bad = true
+								}
+							}
+							return true
+						})
+					}
+					walk(s, false)
+				}
+				if bad {
+					return nil, nil, nil, "a break / fallthrough inside the switch on `val.SeqNo == q.NextSeqNo`"
+				}
+			}
+		default:
+			continue
+		}
+		rest := list[i+1:]
+		path := func(l []ast.Stmt) []ast.Stmt {
+			if ends(l) {
+				return l
+			}
+			return append(append([]ast.Stmt{}, l...), rest...)
+		}
+		if pol > 0 {
+			return list[:i], path(yes), path(no), ""
+		}
+		return list[:i], path(no), path(yes), ""
+	}
+	return nil, nil, nil, "no statement that distinguishes `val.SeqNo == q.NextSeqNo` from the other packets (if / else, early return or switch) at the top level"
 }
 
 // c07WriteCount classifies the body of the `for len(b) > 0` loop of OutQueue.Write by the order of three things:
@@ -480,7 +675,7 @@ func init() {
 		if fd := findFunc(qf, "OutQueue", "cleanAckedChunks"); fd == nil {
 			fail("C07: OutQueue.cleanAckedChunks not found")
 		} else {
-			code, n := c07FindTrim(fd.Body)
+			code, n := c07FindTrim(c07MethodResolver(qf, "OutQueue"), fd.Body)
 			if n != 1 || code < 0 {
 				fail("C07: OutQueue.cleanAckedChunks: trimming of q.acked not in a recognised shape (found %d, code %d)", n, code)
 			}
@@ -491,51 +686,53 @@ func init() {
 		if fd := findFunc(qf, "InQueue", "Append"); fd == nil {
 			fail("C07: InQueue.Append not found")
 		} else {
-			var inorder *ast.IfStmt
-			ast.Inspect(fd.Body, func(x ast.Node) bool {
-				if is, ok := x.(*ast.IfStmt); ok && c07Sel(is.Cond) == "val.SeqNo==q.NextSeqNo" {
-					inorder = is
-					return false
-				}
-				return true
-			})
-			if inorder == nil || inorder.Else == nil {
-				fail("C07: InQueue.Append: `if val.SeqNo == q.NextSeqNo {..} else {..}` not found")
+			// guarded paths instead of one syntactic form; helpers of the same type are followed (c07Reach)
+			resolve := c07MethodResolver(qf, "InQueue")
+			before, inorder, other, why := c07AppendPaths(fd)
+			if why != "" {
+				fail("C07: InQueue.Append: %s", why)
 			} else {
-				code, n := c07FindTrim(inorder.Body)
-				_, nElse := c07FindTrim(inorder.Else)
-				_, nAll := c07FindTrim(fd.Body)
-				if n != 1 || code < 0 || nElse != 0 || nAll != 1 {
-					fail("C07: InQueue.Append: acked trimming not (only) in the in-order branch in a recognised shape (in-order %d, else %d, all %d, code %d)", n, nElse, nAll, code)
+				code, n := c07FindTrim(resolve, c07Reach(resolve, inorder)...)
+				_, nElse := c07FindTrim(resolve, c07Reach(resolve, other)...)
+				_, nBefore := c07FindTrim(resolve, c07Reach(resolve, before)...)
+				if n != 1 || code < 0 || nElse != 0 || nBefore != 0 {
+					fail("C07: InQueue.Append: acked trimming not (only) on the in-order path in a recognised shape (in-order %d, other packets %d, before the test %d, code %d)", n, nElse, nBefore, code)
 				}
 				fmt.Fprintf(b, "/-- InQueue.Append (in-order branch only): slice of `acked` kept when longer than MaxCachedChunks -/\ndef c07InTrim : Nat := %d\n", code)
-				lo, hi := int64(-1), int64(-1)
-				ast.Inspect(inorder.Else, func(x ast.Node) bool {
-					fs, ok := x.(*ast.ForStmt)
-					if !ok {
-						return true
-					}
-					as, ok1 := fs.Init.(*ast.AssignStmt)
-					cond, ok2 := fs.Cond.(*ast.BinaryExpr)
-					inc, ok3 := fs.Post.(*ast.IncDecStmt)
-					if !ok1 || !ok2 || !ok3 || inc.Tok != token.INC || cond.Op != token.NEQ || len(as.Rhs) != 1 {
-						return true
-					}
-					i1, ok1 := as.Rhs[0].(*ast.BinaryExpr)
-					c1, ok2 := cond.Y.(*ast.BinaryExpr)
-					if !ok1 || !ok2 || i1.Op != token.ADD || c1.Op != token.ADD || c07Sel(i1.X) != "q.NextSeqNo" || c07Sel(c1.X) != "q.NextSeqNo" {
-						return true
-					}
-					if v := evalExpr(i1.Y, en); v != nil {
-						lo, _ = constant.Int64Val(constant.ToInt(v))
-					}
-					if v := evalExpr(c1.Y, en); v != nil {
-						hi, _ = constant.Int64Val(constant.ToInt(v))
-					}
-					return false
-				})
-				if lo < 0 || hi < 0 || lo > 65535 || hi > 65535 {
-					fail("C07: InQueue.Append: acceptance-window loop `for i := q.NextSeqNo+lo; i != q.NextSeqNo+hi; i++` not found")
+				lo, hi, loops := int64(-1), int64(-1), 0
+				for _, nd := range c07Reach(resolve, other) {
+					ast.Inspect(nd, func(x ast.Node) bool {
+						fs, ok := x.(*ast.ForStmt)
+						if !ok {
+							return true
+						}
+						as, ok1 := fs.Init.(*ast.AssignStmt)
+						cond, ok2 := fs.Cond.(*ast.BinaryExpr)
+						inc, ok3 := fs.Post.(*ast.IncDecStmt)
+						if !ok1 || !ok2 || !ok3 || inc.Tok != token.INC || cond.Op != token.NEQ || len(as.Rhs) != 1 || len(as.Lhs) != 1 {
+							return true
+						}
+						// one loop variable: initialised, compared and incremented
+						if v := c07Sel(as.Lhs[0]); v == "?" || c07Sel(cond.X) != v || c07Sel(inc.X) != v {
+							return true
+						}
+						i1, ok1 := as.Rhs[0].(*ast.BinaryExpr)
+						c1, ok2 := cond.Y.(*ast.BinaryExpr)
+						if !ok1 || !ok2 || i1.Op != token.ADD || c1.Op != token.ADD || c07Sel(i1.X) != "q.NextSeqNo" || c07Sel(c1.X) != "q.NextSeqNo" {
+							return true
+						}
+						loops++
+						if v := evalExpr(i1.Y, en); v != nil {
+							lo, _ = constant.Int64Val(constant.ToInt(v))
+						}
+						if v := evalExpr(c1.Y, en); v != nil {
+							hi, _ = constant.Int64Val(constant.ToInt(v))
+						}
+						return false
+					})
+				}
+				if loops != 1 || lo < 0 || hi < 0 || lo > 65535 || hi > 65535 {
+					fail("C07: InQueue.Append: acceptance-window loop `for i := q.NextSeqNo+lo; i != q.NextSeqNo+hi; i++` not found exactly once on the path of the other packets (found %d)", loops)
 				}
 				fmt.Fprintf(b, "/-- InQueue.Append: `for i := q.NextSeqNo + Lo; i != q.NextSeqNo + Hi; i++` -/\ndef c07WindowLo : Nat := %d\ndef c07WindowHi : Nat := %d\n", lo, hi)
 			}
